@@ -112,12 +112,17 @@ def Inv (u : Int) (s : State) : Prop :=
 theorem inv_init (u : Int) : Inv u init := by
   intro i op h; simp [init] at h
 
+/-- does the call of operator k on the current status end in a sleep-then-touch? -/
+def willTouch (u : Int) (s : State) (k : Identity) (o : Op) : Bool :=
+  (decideCore u s.status.peers k o.prio true (some o.paused) s.now s.now).touch
+
 /-- what a successful `deliver k` does, spelled out. -/
 theorem deliver_spec {u : Int} {s s1 : State} {k : Identity} (h : step u s (.deliver k) = some s1) :
     ∃ o, s.ops k = some o ∧ o.alive = true ∧ s1.now = s.now ∧
       s1.status = s.status.filter (fun e => !e.2.dead u s.now) ∧
       s.ver ≤ s1.ver ∧ (s1.ver = s.ver → s1.status = s.status) ∧
-      s1.ops = updOp s.ops k { o with paused := blockedB u s.status k o.prio s.now, seen := some (s.ver, s.now) } := by
+      s1.ops = updOp s.ops k { o with paused := blockedB u s.status k o.prio s.now, seen := some (s.ver, s.now),
+                                      sleeping := willTouch u s k o } := by
   simp only [step] at h
   cases hk : s.ops k with
   | none => simp [hk] at h
@@ -133,7 +138,7 @@ theorem deliver_spec {u : Int} {s s1 : State} {k : Identity} (h : step u s (.del
         split at hv
         · rename_i hc; exact cleaned_empty_filter hc
         · omega
-      · simp only [decideCore_status_paused, Option.getD_some, ha]
+      · simp only [decideCore_status_paused, Option.getD_some, ha, willTouch]
     · simp [ha] at h
 
 theorem inv_step {u : Int} {s s' : State} {l : Label} (hi : Inv u s) (h : step u s l = some s') : Inv u s' := by
@@ -242,6 +247,26 @@ theorem inv_step {u : Int} {s s' : State} {l : Label} (hi : Inv u s) (h : step u
     intro k op hk v t hs
     obtain ⟨h1, _⟩ := hi k op hk v t hs
     exact ⟨by simp only; omega, by simp only; omega⟩
+  | wake i =>
+    simp only [step] at h
+    cases hk : s.ops i with
+    | none => simp [hk] at h
+    | some o =>
+      simp only [hk] at h
+      by_cases ha : o.sleeping = true
+      · simp only [ha, if_true, Option.some.injEq] at h
+        subst h
+        intro k op hk' v t hs
+        by_cases hki : k = i
+        · subst hki
+          simp at hk'
+          subst hk'
+          obtain ⟨h1, _⟩ := hi k o hk v t hs
+          exact ⟨by simp only; omega, by simp only; omega⟩
+        · simp only [updOp_other _ _ hki] at hk'
+          obtain ⟨h1, _⟩ := hi k op hk' v t hs
+          exact ⟨by simp only; omega, by simp only; omega⟩
+      · simp [ha] at h
 
 theorem inv_reachable {u : Int} {s : State} (h : Reachable u s) : Inv u s := by
   induction h with
@@ -366,8 +391,8 @@ theorem run_delivers {u : Int} : ∀ (ls : List Label) (s s' : State),
         by_cases hik : i = k
         · subst hik
           right
-          exact ⟨o, { o with paused := blockedB u s.status i o.prio s.now, seen := some (s.ver, s.now) }, ho,
-            by rw [hops1]; simp, rfl, rfl⟩
+          exact ⟨o, { o with paused := blockedB u s.status i o.prio s.now, seen := some (s.ver, s.now),
+                              sleeping := willTouch u s i o }, ho, by rw [hops1]; simp, rfl, rfl⟩
         · rw [hops1, updOp_other _ _ hik]
           cases h : s.ops i with
           | none => exact Or.inl ⟨rfl, rfl⟩
